@@ -9,6 +9,11 @@ def J(harness, **kw):
     return d
 
 PROPS = {
+    "C05": {"quick": [J("^vhC05_multi_T4$", samples=4)], "thorough": [J("^vhC05_multi_T5$", samples=8)], "bounds": {}, "assumptions": []},
+    "C06": {"quick": [J("^vhC06_(inside_L2|wait_L1|collect_L2)$", preempt=1, samples=3)], "thorough": [J("^vhC06_(inside_L3|wait_L2|collect_L3)$", preempt=2, samples=4)], "bounds": {}, "assumptions": []},
+    "C08": {"quick": [J("^vhC08_(sync_L2|handoff_n2)$", preempt=1, samples=3)], "thorough": [J("^vhC08_(sync_L3|handoff_n3)$", preempt=2, samples=4)], "bounds": {}, "assumptions": []},
+    "C14": {"quick": [J("^vhC14_early_L2$", samples=4)], "thorough": [J("^vhC14_early_L3$", preempt=1, samples=6)], "bounds": {}, "assumptions": []},
+    "C17": {"quick": [J("^vhC17_.*_L2$", preempt=1, samples=3)], "thorough": [J("^vhC17_.*_L3$", preempt=1, samples=4)], "bounds": {}, "assumptions": []},
     "C02": {"quick": [J("^vhC02_core_(2x2|3x1)$", preempt=1, races=False, samples=3)], "thorough": [J("^vhC02_core_(2x2|3x1)$", preempt=2, samples=6)],
             "bounds": {"threads": 3, "preemptions_quick": 1, "preemptions_thorough": 2}, "assumptions": []},
     "C03": {"quick": [J("^vhC03_(sub_K3|cut_L2)$", samples=4)], "thorough": [J("^vhC03_(sub_K4|cut_L3)$", samples=8)], "bounds": {}, "assumptions": []},
